@@ -718,6 +718,11 @@ class Executor:
                 pass
             elif len(cands) == 1:
                 ename = cands[0]
+            elif not cands and (lty or "").startswith("std::"):
+                # a std enum the sources do not define (io::ErrorKind, ...): an opaque value
+                a = Agg(f"{lty}::{rhs}")
+                self.write_place(st, lhs, a)
+                return
             else:
                 raise Unsupported(f"cannot resolve bare variant {rhs} (destination type {lty})")
             a = Agg(f"{ename}::{rhs}")
